@@ -29,11 +29,12 @@
 EXTENDS Universe, CaseFile     \* Cases: sequence of [id, u, ps, ...] records
 
 VARIABLES ci,           \* which case this behaviour solves
+          sk,           \* which problem of the case's history is being solved (one solver)
           st            \* the solver state
-vars == <<ci, st>>
+vars == <<ci, sk, st>>
 
 U == Cases[ci].u
-P == Cases[ci].ps[1]
+P == Cases[ci].ps[sk]
 
 NS == Len(U.solv)
 Lit(v, pos) == <<v, IF pos THEN 1 ELSE 0>>
@@ -129,7 +130,8 @@ EncodeReq(s, x, r) ==
       Reg(t, cs) ==
         IF cs = <<>> THEN t
         ELSE LET c == Head(cs)
-                 t1 == IF c \in t.hint /\ ValIn(t.tr, c) # "F" /\ c \notin t.addS /\ ~\E i \in DOMAIN t.q : t.q[i] = c
+                 \* are_dependencies_available_for: hinted, or fetched before (also by an earlier solve)
+                 t1 == IF (c \in t.hint \/ c \in t.cD) /\ ValIn(t.tr, c) # "F" /\ c \notin t.addS /\ ~\E i \in DOMAIN t.q : t.q[i] = c
                        THEN [t EXCEPT !.q = Append(t.q, c)] ELSE t
              IN Reg(AmoAdd(t1, NameOf(U, c), c), Tail(cs))
       s1 == Reg(s, cands)
@@ -150,7 +152,7 @@ EncodeCon(s, x, v) ==
 
 EncodeSolvable(s, x) ==
   IF x \in s.addS THEN s
-  ELSE LET s0 == [s EXCEPT !.addS = s.addS \cup {x}] IN
+  ELSE LET s0 == [s EXCEPT !.addS = s.addS \cup {x}, !.cD = IF x = 0 THEN s.cD ELSE s.cD \cup {x}] IN
        IF x # 0 /\ ~U.solv[x].known THEN AddExcluded(s0, x)
        ELSE LET s1 == FetchPkgs(s0, NamesSeq(x))
                 rs == ReqsOf(U, P, x)
@@ -273,11 +275,11 @@ AnalyzeUnsolvable(cls, tr, cid) ==
 (***************************************************************************)
 S0 == [tr |-> <<>>, cls |-> <<MkClause("root", {Lit(0, TRUE)}, 0, <<>>)>>, asserts |-> <<>>,
        addS |-> {}, addP |-> {}, amo |-> [n \in Names(U) |-> [vars |-> <<>>, helpers |-> <<>>]],
-       nvars |-> NS, hint |-> {}, q |-> <<>>, flagged |-> {},
-       lvl |-> 0, start |-> 0, target |-> 0, softLeft |-> P.soft,
+       nvars |-> NS, hint |-> {}, cD |-> {}, q |-> <<>>, flagged |-> {},
+       lvl |-> 0, start |-> 0, target |-> 0, softLeft |-> Cases[ci].ps[1].soft,
        pc |-> "install", outcome |-> [kind |-> "none"], nlearnt |-> 0, nrestart |-> 0]
 
-Init == ci \in DOMAIN Cases /\ st = S0
+Init == ci \in DOMAIN Cases /\ sk = 1 /\ st = S0
 
 Install ==
   /\ st.pc = "install"
@@ -363,7 +365,16 @@ NextSoft ==
           ELSE st' = [st EXCEPT !.softLeft = Tail(st.softLeft), !.target = x,
                                 !.start = TopLevel(st.tr), !.lvl = TopLevel(st.tr), !.pc = "install"]
 
-Next == (Install \/ PropTop \/ Decide \/ PropLearn \/ Check \/ NextSoft) /\ UNCHANGED ci
+\* solve() is called again on the same solver: the solver state is reset, the cache
+\* (hint bits, fetched dependency records) is kept                   (mod.rs 305-324)
+SolveAgain ==
+  /\ st.pc = "done" /\ sk < Len(Cases[ci].ps)
+  /\ sk' = sk + 1
+  /\ st' = [S0 EXCEPT !.hint = st.hint, !.cD = st.cD, !.softLeft = Cases[ci].ps[sk + 1].soft]
+  /\ UNCHANGED ci
+
+Next == \/ (Install \/ PropTop \/ Decide \/ PropLearn \/ Check \/ NextSoft) /\ UNCHANGED <<ci, sk>>
+        \/ SolveAgain
 Spec == Init /\ [][Next]_vars /\ WF_vars(Next)
 
 (***************************************************************************)
@@ -390,5 +401,5 @@ LearntImplied == Done => \A i \in DOMAIN st.cls : st.cls[i].kind = "learnt" =>
 \* the assert sites of C04
 NoDeadRequirement == st.pc = "decide" => \A i \in Open(st) : FirstOpenCand(st, i) # 0
 TrailConsistent == \A i, j \in DOMAIN st.tr : (i < j => st.tr[i].lvl <= st.tr[j].lvl) /\ (st.tr[i].v = st.tr[j].v => i = j)
-Termination == <>Done
+Termination == <>(Done /\ sk = Len(Cases[ci].ps))
 =============================================================================
